@@ -83,6 +83,11 @@ def run(tier, rnd, out):
     cs = [mk(k) for k in (0, 1, 2, 3) for _ in range(n)]
     for t10 in (range(65536) if tier == "thorough" else list(range(0, 1300)) + list(range(1300, 65536, 37))):      # every tenth of a degree up to 130.0, then a sieve
         c = mk(2); c["fields"][0] = t10; cs.append(c)
+    for pos in (0, 1, 50, 99, 100):              # every end stop with every direction
+        for d in ("SHUTTER_STOP", "SHUTTER_UP", "SHUTTER_DOWN"): c = mk(1); c["fields"][0] = pos; c["fields"][1] = d; cs.append(c)
+    for on in (0, 1):                            # the type-1 fields at their edges, all combinations of (state, power edge, time edge)
+        for w in (0, 1, 65535):
+            for t in (0, 1, 86399): c = mk(0); c["fields"][0] = on; c["fields"][1] = w; c["fields"][2] = t; c["fields"][3] = t; c["fields"][4] = 86399 - t; cs.append(c)
     if tier == "thorough":
         for t in range(0, 86400, 7): c = mk(0); c["fields"][2] = t; c["fields"][3] = 86399 - t; cs.append(c)
         for p in range(256): c = mk(1); c["fields"][0] = p; cs.append(c)
